@@ -112,3 +112,7 @@ Definition key_ok (rs : list krole) : bool := kroles_eqb rs [KFrame; KSide; KMip
 (** the key a site builds for frame [f], side/depth [s], mipmap [m] ([o]: whatever else it puts there) *)
 Definition kval (r : krole) (f s m o : Z) : Z := match r with KFrame => f | KSide => s | KMip => m | KOther => o end.
 Definition key_of (rs : list krole) (f s m o : Z) : list Z := map (fun r => kval r f s m o) rs.
+
+(** * VTF.clear_mipmaps(after=a): which levels are erased.  [c] is the comparison [mipmap c after] read from the source. *)
+Definition clears (c : cmp) (after m : Z) : bool := cmpZ c m after.
+Definition clear_after_ok (c : cmp) : bool := cmp_eqb c CGt.
